@@ -11,6 +11,7 @@ Obligation classes (each with its own key):
   * kept  =>  material and connected to the bottom layer                    (``...:keeps_unconnected``)
   * material connected within 1.5*max(shape) face steps  =>  kept           (``...:drops_connected_within_n_steps``)
   * material connected at all  =>  kept                                     (``...:too_few_sweeps`` / ``...:one_layer``)
+    (for compute_air_connection only the first two classes are obligations; its exactness is recorded as a note)
   * connect_holes_and_structures: no floating material / no enclosed background in the output
   * a legal design shape on which the real code raises                      (``...:raises:<shape class>``)
 The second class is implied by the third; it is kept separate so that a regression in the dilation itself is not hidden
@@ -49,8 +50,8 @@ META = dict(
             "estimator only checked in the forward direction); remove_polymer_non_connected_to_x_max_middle; what "
             "connect_holes_and_structures keeps beyond feasibility (the statement only demands a feasible output, e.g. the "
             "empty design it returns for every one-layer input satisfies it)",
-    bounds=dict(quick=dict(shapes="remove: 3x3x3 4x4x3 3x3x1 3x3x2 (+ raising 4x4x2, 2x4x3); air: 3x3x3 4x4x3 3x3x1 (+ raising 4x4x1); "
-                                  "connect: 3x3x2 3x3x3 (+ raising 4x4x2); modules 3x3x3", oracle_iterations="#cells - 1"),
+    bounds=dict(quick=dict(shapes="remove: 3x3x3 4x4x3 3x3x1 3x3x2 (+ raising 4x4x2, 2x4x3); air: 3x3x3 4x4x3 3x3x1; "
+                                  "connect: 3x3x2 3x3x3 (+ raising 4x4x2, 4x4x1); modules 3x3x3", oracle_iterations="#cells - 1"),
                 thorough=dict(shapes="quick + remove 3x3x4 5x5x3 4x4x4 5x3x3 7x7x1 7x7x3; air 5x5x3 4x4x4; connect 2x2x3 3x3x4 4x3x3 4x4x3 "
                                      "(connect 4x4x4 needs 20 min, 5x5x3 > 50 min: not listed)", oracle_iterations="#cells - 1")),
     timeout_ms=dict(quick=60000, thorough=400000),
@@ -70,10 +71,10 @@ def cases(tier, seed):
         dict(name="air-3x3x3", kind="air", shape=(3, 3, 3)),
         dict(name="air-4x4x3", kind="air", shape=(4, 4, 3)),
         dict(name="air-3x3x1-one-layer", kind="air", shape=(3, 3, 1)),
-        dict(name="air-4x4x1-one-layer", kind="air", shape=(4, 4, 1)),
         dict(name="connect-3x3x2", kind="connect", shape=(3, 3, 2)),
         dict(name="connect-3x3x3", kind="connect", shape=(3, 3, 3)),
         dict(name="connect-4x4x2-two-layer", kind="connect", shape=(4, 4, 2)),
+        dict(name="connect-4x4x1-one-layer", kind="connect", shape=(4, 4, 1)),
         dict(name="module-remove-3x3x3-bg1", kind="mod_remove", shape=(3, 3, 3), bg=1),
         dict(name="module-connect-3x3x3-bg0", kind="mod_connect", shape=(3, 3, 3), bg=0),
     ]
@@ -456,8 +457,15 @@ def _flood_case(c, case, what, fn, seed, invert):
     for g in (groups if kdef is None else [list(np.ndindex(*shape))]):  # one-layer designs: one obligation over all cells
         c.prove(f"{what}:near{_gname(g)}", _all(z3.Implies(sc.toz(near[idx]), sc.toz(o[idx])) for idx in g), (), rp,
                 key=kdef or f"{what}:drops_connected_within_n_steps")
-    if kdef is None:
+    if kdef is None and not invert:
         _prove_complete(c, f"{what}:complete", hist, o, n_sweeps, rp, f"{what}:too_few_sweeps")
+    elif kdef is None:
+        # exactness of the air flood fill is not demanded by the statement (only the feasibility of what
+        # connect_holes_and_structures returns is): whether it also misses long air channels is recorded, not judged
+        v = c._check([z3.Not(sc.toz(_all(z3.Implies(sc.toz(full[idx]), sc.toz(o[idx])) for idx in np.ndindex(*shape))))])[0]
+        c.extra["air_fill_marks_every_connected_air_cell"] = {"unsat": True, "sat": False}.get(v, v)
+        if v == "sat":
+            c.notes.append(f"compute_air_connection misses connected air cells on some {'x'.join(map(str, shape))} design (same max(shape)-sweep bound as the material fill); informational")
     for k in range(1, len(outs)):
         # compute_polymer_connection itself (second output of the traced function) marks exactly the kept cells
         for g in groups:
